@@ -184,7 +184,8 @@ def gen(rng, tier):
 
 
 def gen_control(rng, tier):
-    op = rng.choice(["kill", "close_write", "wait-after-exit", "wait-for-self-exit", "wait-for-self-exit"])
+    op = rng.choice(["kill", "close_write", "wait-after-exit", "wait-for-self-exit", "wait-for-self-exit",
+                     "terminate-stopped-sub", "terminate-stopped-sub"])
     prog = rng.choice(["sleep", "recv", "idle"])
     if op == "wait-for-self-exit":
         prog = "selfexit"
@@ -334,6 +335,10 @@ def execute_control(case, chooser):
     elif case["ctl"] == "wait-for-self-exit":
         # wait() must block until the proxied process has gone and report its exit status
         main += [["io_ctl", 1, "wait"], ["procstate", "w2"]]
+    elif case["ctl"] == "terminate-stopped-sub":
+        # the group's own use of the control operations: a hung (stopped) proxied process must be gone after
+        # terminate(timeout), exactly like a hung direct popen worker - the kill request has to get through
+        main += [["signal", "w2", "stop"], ["terminate", 1.0], ["procstate", "w2"]]
     else:
         main += [["signal", "w2", "kill"], ["io_ctl", 1, "wait"], ["procstate", "w2"]]
     main += [["terminate", 5.0]]
